@@ -106,7 +106,7 @@ def oracle(job, res):
 
 def run(ctx, rng, replay_job=None):
     jobs = [replay_job] if replay_job is not None else \
-        [gen_fill(rng) for _ in range(ctx.n(300, 5000))] + [gen_fixed(rng) for _ in range(ctx.n(150, 2500))]
+        [gen_fill(rng) for _ in range(ctx.n(300, 3000))] + [gen_fixed(rng) for _ in range(ctx.n(150, 1500))]
     chunks = [jobs[i:i + 100] for i in range(0, len(jobs), 100)]
     outs = C.run_driver_parallel(ctx, "c05_glue", [{"jobs": ch} for ch in chunks])
     flat = [r for o in outs for r in o["out"]]
